@@ -44,8 +44,8 @@ def TableVal.nRows (t : TableVal) : Nat := match t.columns with | [] => 0 | c ::
     (the column index when called row-wise; the *row* index when called through
     `_represent_col_elements`) -/
 def represent (naRep : Str) (col : Nat) (unit : Str) (v : Val) : Cell :=
-  if unit ≠ "text".toList && v.isNa then .str naRep
-  else if unit = "onoff".toList then
+  if unit ≠ uText && v.isNa then .str naRep
+  else if unit = uOnoff then
     match v with
     | .bool b => .int (if b then 1 else 0) (if b then "1.0".toList else "0.0".toList)
     | .int i => .int i (intToStr i ++ ".0".toList)           -- `val in [True, 1]` / `[False, 0]` yield 1 / 0
@@ -53,14 +53,14 @@ def represent (naRep : Str) (col : Nat) (unit : Str) (v : Val) : Cell :=
                 else if t = "0.0".toList || t = "-0.0".toList then .int 0 "0.0".toList else .float t
     | .text s => .str s
     | .dt t => .dt t
-  else if unit = "text".toList then
+  else if unit = uText then
     match v with
     | .text s => if s.isEmpty && col = 0 then .str Gen.sealant else .str s
     | .bool b => .str (if b then "True".toList else "False".toList)
     | .num t => .str t
     | .int i => .str (intToStr i)
     | .dt t => .str (t.map (fun c => if c = 'T' then ' ' else c))
-  else if unit = "datetime".toList then
+  else if unit = uDatetime then
     match v with
     | .dt t => .dt t
     | .text s => .other s            -- pd.to_datetime(str): outside well-formed tables
